@@ -81,3 +81,47 @@ func VerifC17_RuleVersusInline() {
 	zzverif.Assert(x1 == nil && x2 == nil, "Example() succeeds on both")
 	zzverif.Assert(vSameBytes(e1, e2), "enum: @name and the inline list give the same example")
 }
+
+// VerifC17_RuleReuse: one rule file (with a comment line between its values)
+// referenced from TWO properties - and read through Values() before and after:
+// the second reference sees the same list as the first, the verdict equals the
+// inline spelling, and using the rule does not change what Values() reports.
+func VerifC17_RuleReuse() {
+	zzverif.Expect("both-accept", "both-reject")
+	v1 := []byte{'"', zzverif.OneOf("1", "abc"), '"'}
+	v2 := []byte{'"', zzverif.OneOf("2", "abc"), '"'}
+	v3 := []byte{zzverif.Digit("3")}
+	zzverif.Assume(string(v1) != string(v2))
+	x := []byte{'"', zzverif.OneOf("x", "abc"), '"'}
+	y := vEnumScalar("y.")
+	ruleText := vJoin([]byte("[\n  "), v1, []byte(",\n  // a comment line\n  "), v2, []byte(", // note\n  /* block\n comment */\n  "), v3, []byte("\n]"))
+	list := vJoin([]byte("["), v1, []byte(", "), v2, []byte(", "), v3, []byte("]"))
+	rule := enum.New("r", ruleText)
+	before, berr := rule.Values()
+	zzverif.Assert(berr == nil, "the rule file is a valid enum rule")
+	var snapshot []string
+	for _, v := range before {
+		snapshot = append(snapshot, v.Value.String()+"|"+string(v.Type)+"|"+v.Comment)
+	}
+	refText := vJoin([]byte("{\n  \"a\": "), x, []byte(", // {enum: @r}\n  \"b\": "), y, []byte(" // {enum: @r}\n}"))
+	inlText := vJoin([]byte("{\n  \"a\": "), x, []byte(", // {enum: "), list, []byte("}\n  \"b\": "), y, []byte(" // {enum: "), list, []byte("}\n}"))
+	ref := New("ref", refText)
+	rerr := ref.AddRule("@r", rule)
+	if rerr == nil {
+		rerr = ref.Check()
+	}
+	ierr := New("inline", inlText).Check()
+	zzverif.Assert((rerr == nil) == (ierr == nil), "two references to one rule get the verdict of the inline lists")
+	if ierr == nil {
+		zzverif.Reach("both-accept")
+	} else {
+		zzverif.Reach("both-reject")
+	}
+	after, aerr := rule.Values()
+	zzverif.Assert(aerr == nil && len(after) == len(snapshot), "Values() is unchanged by using the rule")
+	if len(after) == len(snapshot) {
+		for i, v := range after {
+			zzverif.Assert(v.Value.String()+"|"+string(v.Type)+"|"+v.Comment == snapshot[i], "Values() entries are unchanged by using the rule")
+		}
+	}
+}
